@@ -4,26 +4,115 @@
    Lemmas: Syn/Sets_proofs.v, Syn/SetsSpec_proofs.v. *)
 From Coq Require Import List ZArith Bool.
 From TM Require Import Gram.Cfg Syn.Expr Syn.ExtLang Syn.Sets Syn.SetsSpec Syn.Sets_proofs Syn.SetsSpec_proofs Syn.SetsSpec_proofs2 Syn.SetsSpec_proofs3.
+From TM Require Util.IntSet Util.IntSet_proofs.
+From TM Require Import Util.Graph Util.GraphSpec Util.GraphSpec_proofs Util.Closure Util.ClosureCert
+  Util.ClosureSem Util.Closure_proofs Util.Closure_proofs3 Util.Closure_proofs4 Syn.Sets_closure.
+Notation intset := IntSet.intset.
+Notation mkIntSet := IntSet.mkIntSet.
+Notation set_den_of := IntSet_proofs.den.
+Notation set_wf := IntSet_proofs.wf.
 Import ListNotations.
 Local Open Scope Z_scope.
 
-(* FULL STATEMENTS (not proved):
+(* STATUS.
+   PROVED (universal, this round):
+     - the closure solver (Util/Closure.v: Tarjan order, union / slow intersection branch, complements of solved
+       components) returns THE least solution: C15_closure_least_solution (stable = least solution of its own
+       reduct), C15_closure_solution_is_least_and_unique (equations hold, least, unique);
+     - self_complement_rejected for the solver: the reported nodes are exactly the complements that depend on
+       themselves (C15_closure_self_complement_rejected);
+     - lifted through the model of ResolveSets: a SetsOk result is the unique least solution of the equation
+       system the model generated, a SetsErr result lists exactly the generated complements on cycles
+       (C15_sets_least_solution_partial, C15_self_complement_rejected).
+     Side condition of these theorems: the proved-sound executable certificate ClosureCert.closure_certb (node list
+     as Closure.Add/Intersect/Complement build it; GraphSpec.check_scc / check_onstack accept the output of the
+     Tarjan model), evaluated on every generated case by the glue (Tarjan itself is not proved in Coq).
+     - after_err: the set the compiler adds is follow(error); on plain grammars its proved evaluation is exactly
+       follow_in error and IsRecovering <-> it is non-empty (C15_after_err_partial).
+   STILL OPEN (full statement):
      sets_exact:  resolve_sets T vals sets inputs = SetsOk ts ->
-                  forall i a, In a (nth i ts []) <-> set_den (reachable rules) (nth i sets) a
-     self_complement_rejected:  resolve_sets ... = SetsErr ids  <->  some complement lies on a dependency cycle
-     after_err:   the recovery set is follow_in error.
-   They need the least-solution theorem of the Tarjan-based closure (Util/Closure.v), which C25 does not
-   provide yet.  PROVED below:
-     - the model of isNullable decides "derives the empty string" for every rule body (universal);
-     - closed set expressions (no named sets) over a plain grammar: their evaluation from the tables is the
-       declarative meaning [set_den] (C15_closed_sets_exact);
-     - the executable specification tables used as the oracle are EXACTLY the inductive definitions
-       nullable_in / first_in / last_in / any_in / follow_in / precede_in whenever their run-time stability check passes (P3: a proved
-       oracle, universal in the grammar).
+                  forall i a, In a (nth i ts []) <-> 0 <= a < T /\ set_den_full (reachable rules) sets (nth i sets) a
+     where set_den_full extends set_den to named (mutually recursive) sets and set nonterminals.  Missing link: the
+     demand-driven generation (instantiate / translate / process_key / queue_loop) produces a system whose least
+     solution at the node of (op, sym) is op_in op sym -- checked per run against the eagerly generated system
+     (spec_sets) and, for closed expressions over plain rules, against the proved evaluation eval_set.
    CHECKED PER RUN: model = syntax.ResolveSets (sets, rewritten set nonterminals, offending complements);
-   implementation's sets = naive stratified fixpoint of the eagerly generated declarative system
-   (all operators, set nonterminals, mutually recursive named sets, complements); for plain queries also
-   = the proved tables; the same through compiler.Compile (Grammar.Sets, afterErr, IsRecovering). *)
+   implementation's sets = naive stratified fixpoint of the eagerly generated declarative system; for plain queries
+   also = the proved tables; the certificate sets_certb holds; the same through compiler.Compile. *)
+
+(* ---- (a) least solution of the closure solver ---- *)
+Theorem C15_closure_least_solution :
+  forall nodes,
+    nodes_wf nodes -> tarjan_cert (closure_graph nodes) (tarjan (closure_graph nodes)) ->
+    (forall v, ~ compl_on_cycle nodes v) ->
+    c_oof (compute nodes) = false ->
+    c_err (compute nodes) = [] /\ (forall v, set_wf (val_at (compute nodes) v)) /\
+    stable_solution nodes (sol_of (compute nodes)).
+Proof. exact compute_least_solution. Qed.
+
+(* what "stable solution" means: every equation holds; it is below every valuation closed under the equations
+   (complement operands fixed); it is the only one *)
+Theorem C15_closure_solution_is_least_and_unique :
+  forall nodes sol, nodes_wf nodes -> stable_solution nodes sol ->
+    (forall v x, (v < length nodes)%nat -> eqn_holds nodes sol v x) /\
+    (forall sol', pre_solution nodes sol sol' -> forall v x, (v < length nodes)%nat -> sol v x -> sol' v x) /\
+    (forall out sol2, tarjan_cert (closure_graph nodes) out -> (forall v, ~ compl_on_cycle nodes v) ->
+        stable_solution nodes sol2 -> forall v x, (v < length nodes)%nat -> (sol v x <-> sol2 v x)).
+Proof.
+  intros nodes sol Hwf Hs. split; [exact (stable_is_solution nodes sol Hwf Hs)|]. split.
+  - intros sol' Hp. exact (stable_is_least nodes sol sol' Hs Hp).
+  - intros out sol2 Hc Hn H2. exact (stable_unique nodes out sol sol2 Hwf Hc Hn Hs H2).
+Qed.
+
+(* the executable certificate establishes the two side conditions *)
+Theorem C15_closure_certificate_sound :
+  forall nodes, closure_certb nodes = true ->
+    nodes_wf nodes /\ tarjan_cert (closure_graph nodes) (tarjan (closure_graph nodes)).
+Proof. exact closure_certb_sound. Qed.
+
+(* ---- (b) self_complement_rejected: the solver reports exactly the complements that depend on themselves ---- *)
+Theorem C15_closure_self_complement_rejected :
+  forall nodes,
+    nodes_wf nodes -> tarjan_cert (closure_graph nodes) (tarjan (closure_graph nodes)) ->
+    (forall u, In u (c_err (compute nodes)) <-> compl_on_cycle nodes u) /\
+    (c_err (compute nodes) <> [] <-> exists v, compl_on_cycle nodes v).
+Proof. intros nodes Hwf Hc. exact (conj (compute_errors_exact nodes Hwf Hc) (compute_error_iff_cycle nodes Hwf Hc)). Qed.
+
+(* ---- (c) through the model of ResolveSets ---- *)
+Theorem C15_sets_least_solution_partial :
+  forall T vals sets inputs ts, sets <> [] ->
+    sets_certb T vals sets inputs = true ->
+    resolve_sets T vals sets inputs = SetsOk ts ->
+    let nodes := e_nodes (snd (resolve_est T vals sets inputs)) in
+    let result := fst (resolve_est T vals sets inputs) in
+    exists vals_of : nat -> intset,
+      stable_solution nodes (fun v x => set_den_of (vals_of v) x) /\
+      (forall sol, stable_solution nodes sol -> forall v x, (v < length nodes)%nat -> (sol v x <-> set_den_of (vals_of v) x)) /\
+      (forall v, ~ compl_on_cycle nodes v) /\
+      ts = map (fun v => set_terminals T (vals_of v)) result /\
+      forall i a, (i < length result)%nat -> (In a (nth i ts []) <-> in_terms T (vals_of (nth i result O)) a).
+Proof. exact resolve_sets_ok_least. Qed.
+
+Theorem C15_self_complement_rejected :
+  forall T vals sets inputs, sets <> [] ->
+    sets_certb T vals sets inputs = true ->
+    let nodes := e_nodes (snd (resolve_est T vals sets inputs)) in
+    let compl := e_compl (snd (resolve_est T vals sets inputs)) in
+    (forall ids, resolve_sets T vals sets inputs = SetsErr ids ->
+       exists errs, errs <> [] /\ ids = map (fun v => compl_id v compl) errs /\
+                    forall u, In u errs <-> compl_on_cycle nodes u) /\
+    ((exists ids, resolve_sets T vals sets inputs = SetsErr ids) \/ resolve_sets T vals sets inputs = SetsOof
+       <-> (exists u, compl_on_cycle nodes u) \/ resolve_sets T vals sets inputs = SetsOof).
+Proof. exact resolve_sets_err_cycle. Qed.
+
+(* ---- (d) afterErr ---- *)
+Theorem C15_after_err_partial :
+  forall T rules tb err,
+    (forall r, In r rules -> T <= fst r) -> all_tables T rules = Some tb ->
+    (forall a, set_den T rules (after_err_set err) a <-> follow_in T rules err a) /\
+    (forall a, In a (eval_set T tb (after_err_set err)) <-> (0 <= a < T /\ follow_in T rules err a)) /\
+    (is_recovering (eval_set T tb (after_err_set err)) = true <-> exists a, 0 <= a < T /\ follow_in T rules err a).
+Proof. exact after_err_exact. Qed.
 
 (* nullable.go: isNullable is exact w.r.t. the denotation of the notation (C13's [den]) *)
 Theorem C15_is_nullable_decides_empty :
@@ -89,6 +178,36 @@ Example C15_example_model :
   spec_sets 3 ex_vals [TUnion [TCompl 7 (TNamed 0); TSym 0 0]] [mkInput 0 false] = SpecErr [7].
 Proof. vm_compute. repeat split; reflexivity. Qed.
 
+(* non-vacuity of the closure theorems.  nodes: 0 = {1,5} | n1 ; 1 = {2} | n0 (a union cycle) ; 2 = n0 & n3 ;
+   3 = {2,7} ; 4 = ~n2 (complement of a solved component) ; 5 = n6 & n5' with 5,6 an intersection cycle *)
+Definition ex_nodes : list cnode :=
+  [mkNode OpUnion [1%nat] (mkIntSet false [1; 5]); mkNode OpUnion [0%nat] (mkIntSet false [2]);
+   mkNode OpIntersection [0%nat; 3%nat] (mkIntSet false []); mkNode OpUnion [] (mkIntSet false [2; 7]);
+   mkNode OpComplement [2%nat] (mkIntSet false []);
+   mkNode OpIntersection [6%nat; 0%nat] (mkIntSet false []); mkNode OpUnion [5%nat; 3%nat] (mkIntSet false [1])].
+Definition ex_nodes_cyc : list cnode :=
+  [mkNode OpUnion [1%nat] (mkIntSet false [1]); mkNode OpComplement [0%nat] (mkIntSet false [])].
+
+Example C15_example_closure :
+  closure_certb ex_nodes = true /\ c_oof (compute ex_nodes) = false /\ c_err (compute ex_nodes) = [] /\
+  map n_val (c_nodes (compute ex_nodes)) =
+    [mkIntSet false [1; 2; 5]; mkIntSet false [1; 2; 5]; mkIntSet false [2]; mkIntSet false [2; 7];
+     mkIntSet true [2]; mkIntSet false [1; 2]; mkIntSet false [1; 2; 7]] /\
+  closure_certb ex_nodes_cyc = true /\ c_err (compute ex_nodes_cyc) = [1%nat].
+Proof. vm_compute. repeat split; reflexivity. Qed.
+
+Example C15_example_sets_cert :
+  sets_certb 3 ex_vals [TSym 1 3; TInter [TSym 4 4; TCompl 1 (TSym 0 2)]; TSym 3 0] [mkInput 0 false] = true /\
+  sets_certb 3 ex_vals [TUnion [TCompl 7 (TNamed 0); TSym 0 0]] [mkInput 0 false] = true.
+Proof. vm_compute. split; reflexivity. Qed.
+
+Print Assumptions C15_closure_least_solution.
+Print Assumptions C15_closure_solution_is_least_and_unique.
+Print Assumptions C15_closure_certificate_sound.
+Print Assumptions C15_closure_self_complement_rejected.
+Print Assumptions C15_sets_least_solution_partial.
+Print Assumptions C15_self_complement_rejected.
+Print Assumptions C15_after_err_partial.
 Print Assumptions C15_is_nullable_decides_empty.
 Print Assumptions C15_sets_exact_partial.
 Print Assumptions C15_closed_sets_exact.
